@@ -606,6 +606,14 @@ def classify(it, s, invariants):
         return 'CONST', 'condition folds to true'
     if s['known'] is True:
         return 'DOM', 'dominated by a check of the same condition'
+    if kind == 'explicit-panic' and s.get('in_sort_cmp') is not None:
+        sa, sb, seqt = s['in_sort_cmp']
+        lits = set(facts) | {(l[0] if l[1] else ('not', l[0])) for l in s['guard']}
+        if ('unord', sa, sb) in lits or ('unord', sb, sa) in lits:
+            for f in facts:
+                if f[0] == 'all' and f[3][0] == 'isnormal' and f[3][1][0] == 'elem' and f[3][1][1] == seqt:
+                    return 'NONNAN', 'reached only when the comparator operands are unordered; they are elements of a vector whose elements are all is_normal'
+            return None, 'sort comparator panics on unordered operands and is not dominated by an is_normal check'
     if kind == 'explicit-panic':
         lf = input_len_fact(facts)
         base = fn.split('::{closure')[0]
